@@ -18,8 +18,8 @@
        C06_ident_roundtrip; ASCII contents, see Model/ExprPrint.v).
    REFUTED, with the witness that is the corpus entry of the finding: the printer of the pinned tree (no
    parentheses; IS NOT NULL printed IS NULL; reserved words unquoted; Ctrl-Z escaped as \Z; a leading quote written as two quotes) — all five repaired in
-   /repo — and the two unrepaired behaviours of the current tree (a quoted identifier containing a dot is written
-   raw; NUL is dropped from string literals).
+   /repo — and the three unrepaired behaviours of the current tree (a quoted identifier containing a dot, or beginning
+   with a digit, is written raw; NUL is dropped from string literals).
    NOT covered by a theorem (oracle only, see design/C06.md): function calls, CASE, tuples, sub-queries; the statement
    printers; the layouts of AST.Format / gosqlx.Format / formatter.Format / the CLI formatter (tied to SQL() by
    the token-agreement oracle). *)
@@ -76,15 +76,15 @@ Theorem C06_ident_roundtrip :
 Proof. exact ident_roundtrip. Qed.
 Print Assumptions C06_ident_roundtrip.
 
-Theorem C06_refuted_no_parens : rt_fails (PFlags true false false false) w_parens.
+Theorem C06_refuted_no_parens : rt_fails (PFlags true false false false false) w_parens.
 Proof. exact refuted_no_parens. Qed.
 Print Assumptions C06_refuted_no_parens.
 
-Theorem C06_refuted_is_not_null_lost : rt_fails (PFlags false true false false) w_isnotnull.
+Theorem C06_refuted_is_not_null_lost : rt_fails (PFlags false true false false false) w_isnotnull.
 Proof. exact refuted_is_not_null_lost. Qed.
 Print Assumptions C06_refuted_is_not_null_lost.
 
-Theorem C06_refuted_reserved_raw : rt_fails (PFlags false false true false) w_reserved.
+Theorem C06_refuted_reserved_raw : rt_fails (PFlags false false true false false) w_reserved.
 Proof. exact refuted_reserved_raw. Qed.
 Print Assumptions C06_refuted_reserved_raw.
 
@@ -94,6 +94,13 @@ Theorem C06_refuted_dot_safe :
              /\ parse_expr_top no_defects 0 (ts ++ eof_stop) <> Val (ast_of w_dotted, eof_stop).
 Proof. exact refuted_dot_safe. Qed.
 Print Assumptions C06_refuted_dot_safe.
+
+Theorem C06_refuted_digit_safe :
+  proved w_digit = true /\ ref_expr w_digit = true /\
+  exists ts, print_expr print_tree (ast_of w_digit) = Some ts
+             /\ parse_expr_top no_defects 0 (ts ++ eof_stop) <> Val (ast_of w_digit, eof_stop).
+Proof. exact refuted_digit_safe. Qed.
+Print Assumptions C06_refuted_digit_safe.
 
 Theorem C06_refuted_ctrlz_escape : exists s, read_lit_text (lit_text (CFlags true false false) s) <> Some (s, ""%string).
 Proof. exact refuted_ctrlz_escape. Qed.
